@@ -111,7 +111,9 @@ def drive(tier):
         by_canon.setdefault(canon, set()).add(key)
     for canon, ks in by_canon.items():
         if len(ks) > 1:
-            hh = [h for h in keys if keys[h][0] == canon][:2]
+            hh = []
+            for kk in sorted(ks):
+                hh.append([h for h in keys if keys[h] == (canon, kk)][0])
             extra["violations"].append({"kind": "split", "histories": hh, "what": f"models with the same parameters, random variables, statements, execution steps and data have different keys: {hh}",
                                         "class": "same-content-different-key"})
     results.append(extra)
@@ -180,7 +182,8 @@ def content_key(m):
     from vlib import mgraph
 
     parts = [m.parameters.to_dict(), m.random_variables.to_dict(), m.statements.to_dict(), m.execution_steps.to_dict(),
-             {str(k): v for k, v in m.dependent_variables.items()}, [c.to_dict() for c in m.datainfo], mgraph.dataset_digest(m)]
+             {str(k): v for k, v in m.dependent_variables.items()}, [c.to_dict() for c in m.datainfo], mgraph.dataset_digest(m),
+             None if m.initial_individual_estimates is None else m.initial_individual_estimates.to_dict()]
     return hashlib.sha1(json.dumps(parts, sort_keys=True, default=str).encode()).hexdigest()
 
 
